@@ -15,6 +15,19 @@ type HOp struct {
 }
 
 var HGraphs = []string{"g1", "g2"}
+
+// HGraphUniverse is every graph name a history may use: HGraphs and the
+// renamings below, in which one name is a string prefix of the other (index
+// field names, key prefixes and schema-graph names are all derived from graph
+// names by concatenation).
+var HGraphUniverse = []string{"g1", "g2", "g10", "g"}
+
+var graphRenames = []map[string]string{
+	{"g1": "g1", "g2": "g10"},
+	{"g1": "g10", "g2": "g1"},
+	{"g1": "g", "g2": "g1"},
+	{"g1": "g1", "g2": "g"},
+}
 var HVIDs = []string{"a", "b", "c", "d"}
 var HEIDs = []string{"e1", "e2", "e3", "e4"}
 
@@ -175,6 +188,16 @@ func History(r R, o HistOpts) []HOp {
 					op.E = append(op.E, HEdge(r))
 				}
 			}
+			if o.Invalid && r.Chance(15) {
+				// one invalid element in the stream: the driver-level call fails as a whole
+				if len(op.V) > 0 && r.Chance(50) {
+					op.V[r.Intn(len(op.V))].Label = ""
+				} else if len(op.E) > 0 {
+					op.E[r.Intn(len(op.E))].To = ""
+				} else {
+					op.V[r.Intn(len(op.V))].ID = ""
+				}
+			}
 		case k < 84:
 			op.Op = "delV"
 			op.ID = pick(r, HVIDs)
@@ -196,6 +219,14 @@ func History(r R, o HistOpts) []HOp {
 		}
 		track(op)
 		h = append(h, op)
+	}
+	if r.Chance(35) {
+		m := graphRenames[r.Intn(len(graphRenames))]
+		for i := range h {
+			if n, ok := m[h[i].G]; ok {
+				h[i].G = n
+			}
+		}
 	}
 	return h
 }
